@@ -1,3 +1,4 @@
+import json
 """Per-property check definitions."""
 from kflow import K, run_kani_jobs
 
@@ -208,6 +209,12 @@ C13_QUICK = ["c13_t14_k01", "c13_t14_k02", "c13_t14_k04", "c13_t14_k05", "c13_t1
 C13_LONG = ["c13_t24b", "c13_t14_k12", "c13_t14_k16", "c13_t14_k20", "c13_t12_k20", "c13_t24a", "c13_t19", "c13_t21", "c13_t05", "c13_t05_trunc"]
 
 
+C13_RANGE = ["c13w_t12_n126", "c13w_t12_n125", "c13w_t12_n124", "c13w_t12_n066", "c13w_t12_n024", "c13w_t12_n025",
+             "c13w_t14_n126", "c13w_t14_n125", "c13w_t14_n124", "c13w_t14_n066", "c13w_t14_n020", "c13w_t14_n021",
+             "c13w_t05_n037", "c13w_t05_n038", "c13w_t05_n040", "c13w_t05_n041", "c13w_t05_n043", "c13w_t05_n046", "c13w_t05_n049",
+             "c13w_t05_n052", "c13w_t05_n053", "c13w_t05_n055"]
+
+
 def c13(res, tier, seed):
     jobs = []
     if tier == "quick":
@@ -215,12 +222,22 @@ def c13(res, tier, seed):
             jobs += K(h, ("std",), timeout=900)
         for h in ("c13_t14_k04",):
             jobs += K(h, ("none",), timeout=900)
+        for h in C13_RANGE:
+            jobs += K(h, ("std", "none"), timeout=600)
     else:
         for h in C13_QUICK:
             jobs += K(h, ALL, timeout=1800)
         for h in C13_LONG:
             jobs += K(h, ("std", "none"), timeout=2700, mem_gb=30)
+        for h in C13_RANGE:
+            jobs += K(h, ALL, timeout=900)
     run_kani_jobs(res, jobs)
+    res.assumptions += ["range wiring of the variable-length texts (c13w_*): the decoder parse_6bit_ascii is replaced by len_text_stub (same "
+                        "end-of-input and capacity rules, one non-padding character per character of the requested range), the payload is all "
+                        "ones (every 6-bit group is '?', so that natively the real decoder yields the same length), the payload length is "
+                        "concrete per harness: type 12 and 14 at 126, 125, 124 bytes (the 1008-bit maximum: 156 / 161 characters), 66 and "
+                        "around the 20-character capacity; type 5 at 37, 38, 40, 41, 43, 46, 49, 52, 53, 55 bytes (truncated destination); "
+                        "decoder (c13_*) and range wiring (c13w_*) together give the text of long fields, other lengths are outside the claim"]
     res.assumptions += ["stub core::str::from_utf8 -> ASCII-asserting stub (its assertion is the 'always valid ASCII' clause)",
                         "quick: safety texts (types 12, 14) of 1..8 characters; thorough adds type 24 B (3/4/7 characters), the 20-character "
                         "fields (24 A, 19, 21, 5 incl. a truncated destination) and safety texts up to 20 characters (a harness that exceeds its "
@@ -248,8 +265,10 @@ def c01_kani_jobs(tier):
             jobs += K(h, ("std",), timeout=900)
         for h in ("c01_fix_t05", "c01_fix_t07", "c01_fix_t15", "c01_fix_t20", "c01_fix_t06", "c01_fix_t17", "c01_fix_t24"):
             jobs += K(h, ("none",), timeout=900)   # the types with heapless containers
-        for h in ("c01_len_t14", "c01_len_t10", "c01_len_t08"):
-            jobs += K(h, ("std",), timeout=900)
+        # symbolic payload length 0..=spec max + 2 bytes: every type with a variable or truncatable tail (the fixed layouts
+        # 1-4, 9, 11, 18, 19 take 3-5 min each: thorough tier)
+        for t in (5, 6, 7, 8, 10, 12, 13, 14, 15, 16, 17, 20, 21, 24, 27):
+            jobs += K("c01_len_t%02d" % t, ("std",), timeout=1200)
         jobs += K("c01_text_t14_k04", ("std",), timeout=900)
         jobs += K("c01_text_t14_k21", ("none",), timeout=900) + K("c01_text_t12_k21", ("none",), timeout=900)
         jobs += K("c01_long_t14", ("std", "none"), timeout=900)
@@ -274,6 +293,9 @@ def c01(res, tier, seed):
     mt, cxs = mt_setup(res, ("std", "none") if tier == "quick" else ALL, tier, seed)
     for cx in cxs:
         mt.q_no_panic(cx)
+        # the payload layer's harnesses assume what the sentence layer hands over (fill count 0..=5, non-empty payload, ...):
+        # that hand-over contract is discharged here as well, so that the decomposition of this property is closed
+        mt.q_handover_for_totality(cx)
         mt.run_queries(cx, timeout_s=300 if tier == "quick" else 1200)
     res.assumptions += ["payload layer: per message type the exact specification length (quick) and a symbolic length 0..=spec max + 2 bytes (thorough; "
                         "quick for the cheap types), all bits symbolic including the type bits", SKIPTEXT_NOTE +
@@ -497,7 +519,7 @@ def c02(res, tier, seed):
     for c, rel in rels.items():
         msq.q_checksum_gate(res, rel, ql)
     # Kani leaf on the real check_checksum (through the cfg-guarded hook): the fold covers every byte of ranges far beyond N
-    run_kani_jobs(res, K("c02_fold_n400", ("std",), timeout=900) + K("c02_fold_n96", ("none",), timeout=900) if tier == "quick"
+    run_kani_jobs(res, K("c02_fold_n400", ("std",), timeout=1800) + K("c02_fold_n96", ("none",), timeout=900) if tier == "quick"
                   else K("c02_fold_n96", ALL, timeout=900) + K("c02_fold_n400", ALL, timeout=2700))
     res.assumptions += ["text layer: lines of at most N bytes (see bounds); the S-layer queries cover any parser state",
                         "XOR fold + comparison (Kani, hook AisParser::verif_check_checksum): checksummed ranges of up to %d bytes, all contents" % 400]
@@ -541,6 +563,33 @@ def c19(res, tier, seed):
 def c20(res, tier, seed):
     import mbin
     mbin.run(res, nlines=2 if tier == "quick" else 3)
+    # the tool calls AisParser::parse(line, true) once per line and a panic there ends the process: the sentence layer's panic
+    # edges and its hand-over contract to the payload layer are decided here too (the payload layer itself: C01's harnesses);
+    # every witness line is piped through the real binary between two valid sentences before it is reported
+    n0 = len(res.violations)
+    mt, cxs = mt_setup(res, ("std",), tier, seed)
+    for cx in cxs:
+        mt.q_no_panic(cx)
+        mt.q_handover_for_totality(cx)
+        mt.run_queries(cx, timeout_s=300 if tier == "quick" else 1200)
+    if len(res.violations) > n0:
+        exe = mbin.build_binary()
+        keep = res.violations[:n0]
+        for v in res.violations[n0:]:
+            try:
+                rec = json.load(open(v["replay"]))
+                line = bytes.fromhex(rec["line_hex"])
+                rc, so, se = mbin.run_binary(exe, [mbin.VALID, line, mbin.VALID])
+                rec["binary"] = {"stdin_lines_hex": [mbin.VALID.hex(), line.hex(), mbin.VALID.hex()], "exit_code": rc, "stdout_records": len(so), "stderr_records": len(se)}
+                json.dump(rec, open(v["replay"], "w"), indent=1)
+                if rc != 0 or len(so) < 2:
+                    v["what"] = "aisparser stops at a line (exit code %s, %d of 2 valid sentences printed): %s" % (rc, len(so), v["what"])
+                    keep.append(v)
+                else:
+                    res.norepro.append("the tool survives the line that panics in the library: %s" % v["what"][:200])
+            except Exception as e:      # noqa
+                res.inconclusive.append("could not pipe a witness line through the binary: %s" % e)
+        res.violations[:] = keep
     res.assumptions += ["environment stubs: stdin().lock().split(b'\\n') yields Ok(line) per line in input order (no I/O errors); map/for_each apply their closures once per "
                         "line in order; _print/_eprint = one record each; str::from_utf8 = Ok iff the line is UTF-8 (both cases possible); "
                         "AisParser::parse = any of Complete / Incomplete / Err (C01 covers its totality)",
